@@ -44,6 +44,10 @@ pub fn generate(r: &mut Prng, seed: u64, run: u64) -> Scenario {
     } else if r.chance(1, 3) {
         facts.pad_some_names(r);
     }
+    if path == PathKind::Builder {
+        // some deliveries name a record differently (first one wins): whatever the source then shows must round-trip
+        spec.alt_names = mix2(spec.ann_order.seed, 0xA17A) % 3 == 0;
+    }
     let mut sub = None;
     if r.chance(1, 12) {
         // the examples/subontology.rs workflow: a build_minimal / sub_ontology result that still has both roots
